@@ -57,7 +57,7 @@ def run(ctx: Ctx) -> None:
                 ok = f.cls is mem and f.name == "reset" and n.func.attr == "clear"
                 r.check(ok, f"{short(f.qname)}|memory_file.{n.func.attr}", f.loc(n), f"{short(f.qname)} uses memory_file.{n.func.attr}(..) outside the checked accessors")
     if n_sub < 2:
-        raise AnalysisError("R18.range: cell subscripts vanished")
+        ctx.floor_misses.append("R18.range: cell subscripts vanished")
     for name in ("_read_value", "_write_value"):
         f = m.method(mem, name, own=True)
         s0 = f.params[0]
